@@ -23,6 +23,52 @@ Theorem too_long_fields_fail_unwritten :
 Proof. split; [exact userpass_too_long|exact request_too_long]. Qed.
 Print Assumptions too_long_fields_fail_unwritten.
 
+(* RFC 1929 "UNAME ... 1 to 255", "PASSWD ... 1 to 255" and lib/README.md "length = (0..MAX]" for DOMAIN, USER_AGENT and
+   PROXY_AUTH: with an empty user name, password or string value the request fails and no authentication message is written *)
+Theorem empty_fields_fail_unwritten :
+  (forall u p, lenN u = 0 \/ lenN p = 0 -> auth_message (AUserPass u p) = None)
+  /\ (forall vals t v, In (t, v) vals -> (t = 1 \/ t = 3 \/ t = 4) -> lenN v = 0 -> auth_message (AExt vals) = None).
+Proof.
+  split; [exact userpass_empty|].
+  intros vals t v Hin Ht Hv. unfold auth_message.
+  rewrite (ext_values_empty_string vals t v Hin); [reflexivity| |exact Hv].
+  destruct Ht as [Ht|[Ht|Ht]]; subst t; reflexivity.
+Qed.
+Print Assumptions empty_fields_fail_unwritten.
+
+(* the grammar the emitted messages are read under does ask for those lengths (it does not leave them to the server) *)
+Theorem wellformed_credentials_are_not_empty :
+  forall m u p, spec_userpass m = Some (u, p) -> 1 <= lenN u <= 255 /\ 1 <= lenN p <= 255.
+Proof. exact spec_userpass_lengths. Qed.
+Print Assumptions wellformed_credentials_are_not_empty.
+
+Example ex_zero_length_fields_are_malformed :
+  spec_userpass [1; 0; 2; 112; 49] = None /\ spec_userpass [1; 2; 117; 49; 0] = None
+  /\ spec_ext [1; 1; 0; 1; 120; 3; 0; 0; 0; 0; 0] = None /\ spec_ext [1; 1; 0; 1; 120; 5; 0; 0; 0; 0; 0] = Some [(1, [120]); (5, [])].
+Proof. vm_compute. repeat split; reflexivity. Qed.
+
+(* socks5_forwarder::make_extended_auth: the values that go with a request make a well-formed message whatever its User-Agent
+   field was; a field with an empty value is not handed on (the request does not fail for it) *)
+Theorem extended_values_of_a_request :
+  forall domain addr agent src,
+    bytes_ok domain = true -> bytes_ok addr = true -> (lenN addr = 4 \/ lenN addr = 16) ->
+    match agent with Some ua => bytes_ok ua = true | None => True end ->
+    match src with SrcBasic t => bytes_ok t = true | SrcSni => True end ->
+    (forall msg, auth_message (AExt (make_extended_auth domain addr agent src)) = Some msg ->
+                 spec_ext msg = Some (make_extended_auth domain addr agent src))
+    /\ make_extended_auth domain addr (Some []) src = make_extended_auth domain addr None src.
+Proof.
+  intros domain addr agent src Hd Ha Hl Hu Hs. split.
+  - intros msg. apply ext_auth_of_a_request_wf; assumption.
+  - reflexivity.
+Qed.
+Print Assumptions extended_values_of_a_request.
+
+Example ex_empty_user_agent :
+  auth_message (AExt (make_extended_auth [104] [127; 0; 0; 1] (Some []) (SrcBasic [100; 84; 69; 54])))
+  = Some [1; 1; 0; 1; 104; 2; 0; 4; 127; 0; 0; 1; 4; 0; 4; 100; 84; 69; 54; 0; 0; 0].
+Proof. vm_compute. reflexivity. Qed.
+
 (* offered methods reflect the available credentials *)
 Theorem methods_reflect_credentials :
   forall a, spec_selection (selection_message a) = Some [method_of a; 0].
@@ -86,8 +132,10 @@ Proof.
 Qed.
 Print Assumptions ok_answer_only_after_a_successful_dialogue.
 
-Theorem forwarder_code_facts : SOCKS_OUTCOME_MAPPING_AS_MODELLED = true /\ SOCKS_AUTH_CHOICE_AS_MODELLED = true.
-Proof. split; exact eq_refl. Qed.
+Theorem forwarder_code_facts :
+  SOCKS_OUTCOME_MAPPING_AS_MODELLED = true /\ SOCKS_AUTH_CHOICE_AS_MODELLED = true
+  /\ SOCKS_EMPTY_USER_AGENT_NOT_SENT = true /\ SOCKS_DESTINATION_KEEPS_ITS_TYPE = true.
+Proof. repeat split; exact eq_refl. Qed.
 Print Assumptions forwarder_code_facts.
 
 (* RFC 1928 section 7 *)
@@ -116,6 +164,16 @@ Example ex_dialogue :
           [5; 2; 1; 0; 5; 0; 0; 1; 1; 2; 3; 4; 0; 80]
   = ([EmSel [5; 2; 2; 0]; EmAuth [1; 1; 117; 3; 112; 58; 113];
       EmReq [5; 1; 0; 3; 3; 97; 46; 98; 1; 187]], OTcp).
+Proof. vm_compute. reflexivity. Qed.
+(* an empty user name: the server asks for the credentials, nothing is written after the method selection *)
+Example ex_empty_user_name :
+  connect (AUserPass [] [112; 49]) (DDomain [97; 46; 98]) 443 [5; 2; 1; 0; 5; 0; 0; 1; 1; 2; 3; 4; 0; 80]
+  = ([EmSel [5; 2; 2; 0]], OProtocol).
+Proof. vm_compute. reflexivity. Qed.
+(* an IPv6 destination goes out with address type 4 and the request's port *)
+Example ex_ipv6_destination_port_80 :
+  fst (connect ANone (DIp [32; 1; 13; 184; 0; 0; 0; 0; 0; 0; 0; 0; 0; 0; 0; 7]) 80 [5; 0])
+  = [EmSel [5; 2; 0; 0]; EmReq [5; 1; 0; 4; 32; 1; 13; 184; 0; 0; 0; 0; 0; 0; 0; 0; 0; 0; 0; 7; 0; 80]].
 Proof. vm_compute. reflexivity. Qed.
 Example ex_failure :
   snd (connect ANone (DIp [1;2;3;4]) 80 [5; 0; 5; 4; 0; 1; 0; 0; 0; 0; 0; 0]) = OFailure 4.
